@@ -300,11 +300,23 @@ class Controller:
     def teardown(self, wait: bool = True) -> None:
         for r in self.recs:
             r.gate.set()
-        for p in self.pools:
-            try:
-                p.shutdown(wait=wait, cancel_futures=not wait)
-            except Exception:
-                pass
+        if wait:
+            # the pools belong to the library (it may keep one across calls): never shut them down, only let every work item
+            # of THIS execution run to its end; a pool the library abandons is collected with its idle workers
+            lim = _time.monotonic() + 10
+            for r in self.recs:
+                if r.future is not None:
+                    try:
+                        _real_wait([r.future], timeout=max(0.0, lim - _time.monotonic()))
+                    except Exception:
+                        pass
+        else:
+            for p in self.pools:
+                try:
+                    p.shutdown(wait=False, cancel_futures=True)
+                except Exception:
+                    pass
+        self.pools = []
 
 
 def early_point(c: "Controller", where: str) -> None:
@@ -870,6 +882,10 @@ def lib_call(name: str, fn, a: tuple, k: dict):
 # --------------------------------------------------------------------------- several executions in one loop (C17)
 
 
+class HarnessStarved(Exception):
+    pass
+
+
 class Driver:
     """When several scheduler coroutines share one event loop, an asyncio-future wait parks its coroutine here; the
     driver (a sibling coroutine) runs whenever every unfinished execution is parked and chooses which execution is
@@ -912,11 +928,23 @@ class Driver:
                 break
             options = []
             for pi, (fut, recs, rw) in enumerate(self.parked):
+                # only a node that is running can finish: one queued behind a full pool (never the case while every
+                # execution has its own workers) cannot be chosen
+                live = [j for j, r in enumerate(recs) if r.entered.is_set() or r.finished.is_set()]
                 if rw == _cf.FIRST_COMPLETED:
-                    for sub in subsets(len(recs)):
-                        options.append((pi, sub))
-                else:
+                    for sub in subsets(len(live)):
+                        options.append((pi, tuple(live[j] for j in sub)))
+                elif len(live) == len(recs):
                     options.append((pi, tuple(range(len(recs)))))
+            if not options:
+                waiting = [r for (_f, recs, _rw) in self.parked for r in recs if not r.entered.is_set()]
+                c.ev("starved", _ids(waiting))
+                # no awaited node can ever finish: fail the awaits instead of hanging the exploration
+                for fut, recs, rw in self.parked:
+                    fut.set_exception(HarnessStarved(f"awaited nodes {_ids(recs)} cannot start: the workers are held by other executions"))
+                self.parked = []
+                await _real_asyncio.sleep(0)
+                continue
             # the loop is free while async-thread nodes are in flight: siblings (the ticker) make progress
             t0 = self.ticks
             for _ in range(3):
